@@ -43,6 +43,27 @@ def cases(draw, tier="quick"):
                                           linkname=draw(st.sampled_from(tgts)), enc=dict(fmt="ustar", longname="gnu", num="octal", ostyle=0)))
     s = dict(root_becomes=draw(st.sampled_from([None, None, b".", b"rootdir", b"a/b"])), no_xattr=draw(st.sampled_from([False, False, True])),
              no_hard_links=draw(st.sampled_from([False, False, True])), no_skip=False)
+    # sqfs2tar --subdir / --keep-as-dir: select one or two directories of the image; siblings whose names are string prefixes /
+    # extensions of a selected one ("lib" next to "lib64") are added so that matching on component boundaries matters
+    if dirs and "root_becomes" not in o and draw(st.sampled_from([False, False, False, True])):
+        picked = draw(st.lists(st.sampled_from(dirs), min_size=1, max_size=2, unique=True))
+        for d in picked:
+            base = d.rsplit(b"/", 1)[-1]
+            par = d[:len(d) - len(base)]
+            for nm2, typ in ((base[:-1], "file"), (base + b"x", "dir"), (base[:1], "slink")):
+                pth = par + nm2
+                if nm2 and all(tarimg.canon(e["name"]) != pth for e in ar["entries"]) and len(base) < 90:
+                    ent = dict(name=pth, type=typ, mode=0o644 if typ == "file" else 0o755, uid=0, gid=0, mtime=7, xattrs={},
+                               enc=dict(fmt="ustar", longname="gnu", num="octal", ostyle=0))
+                    if typ == "file":
+                        ent["data"] = b"SECRET outside the selected directory"
+                    if typ == "slink":
+                        ent["linkname"] = b"elsewhere"
+                    ar["entries"].append(ent)
+        s["subdirs"] = [draw(st.sampled_from([d, d + b"/", b"/" + d, b"./" + d])) for d in picked]
+        s["subdirs_canon"] = picked
+        s["keep_as_dir"] = draw(st.booleans())
+        s["no_hard_links"] = True      # a link whose target lies outside the selection has no defined outcome
     return dict(archive=ar, opts=o, s2t=s)
 
 
@@ -99,7 +120,17 @@ def expected_tar_view(tree, s):
     res = {}
     pre = s.get("root_becomes")
     pre = tarimg.canon(pre) if pre is not None else None
+    S = s.get("subdirs_canon") or []
+    single = len(S) == 1 and not s.get("keep_as_dir")
     for p, n in tree.items():
+        if p != b"" and S:
+            # kept: a selected directory, what lies below it, and the directories leading to it
+            if not any(p == d or d.startswith(p + b"/") or p.startswith(d + b"/") for d in S):
+                continue
+            if single:
+                if len(p) <= len(S[0]):
+                    continue
+                p = p[len(S[0]) + 1:]
         if p == b"":
             if pre is None:
                 continue
@@ -305,6 +336,10 @@ def check_case(case, opts):
         if any(n["type"] == "sock" for n in t1.values()) and b"sock" not in r2.err.lower() and not r2.err:
             raise Violation("sqfs2tar skipped a socket without a warning", None, sig="s2t-sock-silent")
         classes.append("s2t_ok")
+        if s.get("subdirs"):
+            # a selection is not meant to reproduce the image: the listing above is the whole oracle
+            classes.append("s2t_subdirs_%d%s" % (len(s["subdirs"]), "_k" if s.get("keep_as_dir") else ""))
+            return CaseInfo(True, classes)
         # ---- (3) fix-point
         o2 = dict(o)
         o2.pop("root_becomes", None)
